@@ -110,7 +110,10 @@ pub fn check_with(ctx: &mut Ctx, src: &str, cfg: &Cfg, kind: &str, run: PpRun) {
                 let tx = &b.text[t.s..t.e];
                 match t.k {
                     K::Tick => {
-                        in_define = tx == "`define";
+                        // (a backtick inside the body -- paste, nested usage -- does not end the define line)
+                        if !in_define {
+                            in_define = tx == "`define";
+                        }
                         prev_non_trivia = Some(t.k);
                     }
                     K::Ws => {
